@@ -1,7 +1,9 @@
-//! C17: the real `FallbackLayer` (built through its public builder) over the scripted inner service.
+//! C17: the real `FallbackLayer` (built through its public builder, its shortcut constructors or the `Default`
+//! builder) over the scripted inner service — alone, or with a second `FallbackLayer` stacked on top.
 //!
 //! header: `fallback strategy=<value|value_fn|from_error|from_request_error|service|exception>
-//!          [handle=<bit mask over error kinds>] val=<n> [ready=<script>] [bready=<script>]`
+//!          [handle=<bit mask over error kinds>] val=<n> [ready=<script>] [bready=<script>]
+//!          [via=<builder|short|default>] [upper=<strategy> [uhandle=<mask>] [uval=<n>] [uvia=…]]`
 //!          `ready=`: the wrapped service answers successive `poll_ready` calls (on any clone) from
 //!          the script ('r' ready, 'p' pending, 'e' error `IErr{9,0}`; ready once exhausted) —
 //!          `Inner::strict`; `bready=`: the same for the backup service of the service strategy,
@@ -9,165 +11,494 @@
 //!          layer itself cannot poll the backup's readiness: it only has a `Fn(Req) -> Future`);
 //!          without `bready=` the closure is `|req| backup.call(req)`: the call is made in its
 //!          synchronous part.
-//! arrive: `arrive <c> tag=<t> inner=<lat>:<out>[,<lat>:<out> for the backup call]`
+//!          `via=short`: the layer is built with the shortcut constructor of the strategy
+//!          (`FallbackLayer::value(v)`, `::value_fn(f)`, …; only without a predicate — a shortcut has none);
+//!          `via=default`: through `FallbackConfigBuilder::default()` instead of `FallbackLayer::builder()`.
+//!          `upper=`: a second fallback layer wraps the first; its error type is `FallbackError<IErr>`; its
+//!          test functions are the lower layer's read through the encoding `Inner(e)` -> kind `2·e.kind`,
+//!          `FallbackFailed(e)` -> kind `2·e.kind+1` (so a predicate mask addresses (variant, kind) and every
+//!          function logs which variant it was handed); they log `upredicate …` / `ustrategy …`. Every strategy
+//!          but the backup service (`upper=service` is ignored).
+//! arrive: `arrive <c> tag=<t> inner=<lat>:<out>[,<lat>:<out> for the backup call] [post=<steps>] [svc=<k>] [reuse=1]`
 //!          the caller clones the service and polls it ready ONCE: pending -> `result c notready`
 //!          (it gives up), error -> `resp`/`result` lines with that error rendered like a call error
 //!          (so a transformed or otherwise handled readiness error is visible), ready -> the call.
-//! manual: `manual dropsvc` — the caller drops every handle it holds: the service, (every clone is
-//!          a temporary of `arrive` already) and the layer, while call futures may be in flight
+//!          `svc=<k>`: the call goes to service k; services are built lazily from the ONE layer value (even k) or
+//!          from a clone of it taken at that moment (odd k), each around a clone of the scripted inner service.
+//!          `reuse=1`: `poll_ready` and `call` are made on the long-lived handle itself, not on a clone of it
+//!          (`h.call(); h.call()`).
+//!          `post=<steps>`: what the caller does with an `Err(FallbackError)` before looking at it, one letter per
+//!          step: `c` replaces it by its `clone()`, `v` logs what `is_inner()`, `is_fallback_failed()`, `inner()`
+//!          and `into_inner()` report (`view c <is_inner> <is_failed> <ref kind> <ref v> <into kind> <into v>`),
+//!          `m` converts the payload with the crate's own `FallbackError::map` (`map_err(|e| e.map(AppErr::from))`,
+//!          `AppErr::from` = kind + 100).
+//! manual: `manual dropsvc` — the caller drops every handle it holds: every service, (every per-call clone is
+//!          a temporary of `arrive` already) and the layers, while call futures may be in flight
 //!          (`svc.oneshot(req)`; `let f = svc.call(req); drop(svc); f.await`). Later `arrive`s are
 //!          answered `noop`: there is nothing left to make a call on.
+//! probe:  `probe strategy c= tag= kind= v=` — a `FallbackStrategy` value of the header's strategy built by hand,
+//!          CLONED, the clone applied to the sample request and error.
 //!
 //! The user-supplied functions are fixed test functions with distinguishable results (the same
 //! ones as in `TR.Model.Fallback`); each invocation is logged (they are calls into user code,
 //! like the inner call). The backup service is a second scripted service with label `b`.
 use crate::world::*;
+use std::collections::BTreeMap;
 use std::sync::atomic::{AtomicU64, Ordering};
 use std::sync::Arc;
 use tower::{Layer, Service};
-use tower_resilience_fallback::{Fallback, FallbackError, FallbackLayer};
+use tower_resilience_fallback::{Fallback, FallbackConfigBuilder, FallbackError, FallbackLayer, FallbackStrategy};
+
+/// the error type of the lower layer = the inner error type of the upper layer
+type MidErr = FallbackError<IErr>;
+type LowLayer = FallbackLayer<Req, Resp, IErr>;
+type UpLayer = FallbackLayer<Req, Resp, MidErr>;
+type Low = Fallback<Inner, Req, Resp, IErr>;
+type Up = Fallback<Low, Req, Resp, MidErr>;
+
+/// an error payload as (kind, v)
+trait Pay: Clone + 'static {
+    fn kv(&self) -> (u64, u64);
+}
+impl Pay for IErr {
+    fn kv(&self) -> (u64, u64) {
+        (self.kind as u64, self.v)
+    }
+}
+/// the lower layer's error as the upper layer's test functions (and the rendering of the upper layer's result) read it
+impl Pay for MidErr {
+    fn kv(&self) -> (u64, u64) {
+        match self {
+            FallbackError::Inner(e) => (2 * e.kind as u64, e.v),
+            FallbackError::FallbackFailed(e) => (2 * e.kind as u64 + 1, e.v),
+        }
+    }
+}
+/// the application's error type a caller converts payloads into
+#[derive(Clone, Debug)]
+struct AppErr {
+    kind: u64,
+    v: u64,
+}
+impl Pay for AppErr {
+    fn kv(&self) -> (u64, u64) {
+        (self.kind, self.v)
+    }
+}
+/// `AppErr::from`
+fn app_err<E: Pay>(e: E) -> AppErr {
+    let (k, v) = e.kv();
+    AppErr { kind: k + 100, v }
+}
+
+enum Via {
+    Builder,
+    Short,
+    Default,
+}
+fn via_of(s: Option<&str>) -> Via {
+    match s {
+        Some("short") => Via::Short,
+        Some("default") => Via::Default,
+        _ => Via::Builder,
+    }
+}
+
+fn build_lower(kv: &Kv) -> LowLayer {
+    let val = kv.u64("val", 0);
+    type B = FallbackConfigBuilder<Req, Resp, IErr>;
+    let strategy_name = kv.str("strategy", "value");
+    let bready = kv.get("bready").map(|x| x.to_string());
+    let handle_mask = kv.opt_u64("handle");
+    // the test functions
+    let value = Resp { v: val, c: 0, tag: 0 };
+    let value_fn = {
+        let n = Arc::new(AtomicU64::new(0));
+        move || {
+            let i = n.fetch_add(1, Ordering::SeqCst);
+            log(format!("strategy value_fn {}", i));
+            Resp { v: val + i, c: 0, tag: 1 }
+        }
+    };
+    let from_error = |e: &IErr| {
+        log(format!("strategy from_error {} {}", e.kind, e.v));
+        Resp { v: e.v, c: 0, tag: e.kind as u64 }
+    };
+    let from_request_error = |rq: &Req, e: &IErr| {
+        log(format!("strategy from_request_error {} {} {} {}", rq.c, rq.tag, e.kind, e.v));
+        Resp { v: e.v, c: rq.c, tag: rq.tag * 100 + e.kind as u64 }
+    };
+    let exception = |e: IErr| {
+        log(format!("strategy exception {} {}", e.kind, e.v));
+        IErr { kind: e.kind.wrapping_add(10), v: e.v }
+    };
+    // without a readiness script: the backup call is made in the synchronous part of the closure
+    // (`|req| client.call(req)`), so WHEN the layer invokes the closure is visible in the log
+    let backup_plain = {
+        let backup = Inner::labelled("b");
+        move |rq: Req| {
+            let mut s = backup.clone();
+            s.call(rq)
+        }
+    };
+    // with one: `|req| async move { client.ready().await?.call(req).await }`
+    let backup_scripted = {
+        let mut backup = Inner::strict(bready.as_deref().unwrap_or(""));
+        backup.label = "b";
+        move |rq: Req| {
+            let mut s = backup.clone();
+            async move {
+                std::future::poll_fn(|cx| s.poll_ready(cx)).await?;
+                s.call(rq).await
+            }
+        }
+    };
+    let via = via_of(kv.get("via"));
+    if let (Via::Short, None) = (&via, handle_mask) {
+        // the shortcut constructors (layer.rs:45-152): the strategy and nothing else
+        return match strategy_name.as_str() {
+            "value_fn" => LowLayer::value_fn(value_fn),
+            "from_error" => LowLayer::from_error(from_error),
+            "from_request_error" => LowLayer::from_request_error(from_request_error),
+            "service" if bready.is_none() => LowLayer::service(backup_plain),
+            "service" => LowLayer::service(backup_scripted),
+            "exception" => LowLayer::exception(exception),
+            _ => LowLayer::value(value),
+        };
+    }
+    let strategy = move |b: B| -> B {
+        match strategy_name.as_str() {
+            "value_fn" => b.value_fn(value_fn),
+            "from_error" => b.from_error(from_error),
+            "from_request_error" => b.from_request_error(from_request_error),
+            "service" if bready.is_none() => b.service(backup_plain),
+            "service" => b.service(backup_scripted),
+            "exception" => b.exception(exception),
+            _ => b.value(value),
+        }
+    };
+    let handle = move |b: B| -> B {
+        match handle_mask {
+            Some(mask) => b.handle(move |e: &IErr| {
+                let r = e.kind < 64 && (mask >> e.kind) & 1 == 1;
+                log(format!("predicate {} {} {}", e.kind, e.v, r as u8));
+                r
+            }),
+            None => b,
+        }
+    };
+    // `order=1`: the handle predicate is configured BEFORE the strategy (builder calls commute)
+    let b = match via {
+        Via::Default => B::default(),
+        _ => LowLayer::builder(),
+    }
+    .name("verif");
+    let b = if kv.u64("order", 0) == 1 { strategy(handle(b)) } else { handle(strategy(b)) };
+    b.build()
+}
+
+/// The upper layer of a stack (`upper=<strategy>`): the lower layer's test functions over the encoded error.
+/// Every function takes the error apart by pattern matching (`Pay for MidErr`), so what it logs is the variant
+/// it was really handed.
+fn build_upper(kv: &Kv) -> Option<UpLayer> {
+    let name = kv.get("upper")?.to_string();
+    if name == "service" {
+        return None;
+    }
+    let val = kv.u64("uval", 0);
+    type B = FallbackConfigBuilder<Req, Resp, MidErr>;
+    let mask = kv.opt_u64("uhandle");
+    let value = Resp { v: val, c: 0, tag: 0 };
+    let value_fn = {
+        let n = Arc::new(AtomicU64::new(0));
+        move || {
+            let i = n.fetch_add(1, Ordering::SeqCst);
+            log(format!("ustrategy value_fn {}", i));
+            Resp { v: val + i, c: 0, tag: 1 }
+        }
+    };
+    let from_error = |e: &MidErr| {
+        let (k, v) = e.kv();
+        log(format!("ustrategy from_error {} {}", k, v));
+        Resp { v, c: 0, tag: k }
+    };
+    let from_request_error = |rq: &Req, e: &MidErr| {
+        let (k, v) = e.kv();
+        log(format!("ustrategy from_request_error {} {} {} {}", rq.c, rq.tag, k, v));
+        Resp { v, c: rq.c, tag: rq.tag * 100 + k }
+    };
+    // encoded kind + 10 = the same variant, kind + 5
+    let exception = |e: MidErr| {
+        let (k, v) = e.kv();
+        log(format!("ustrategy exception {} {}", k, v));
+        match e {
+            FallbackError::Inner(x) => FallbackError::Inner(IErr { kind: x.kind.wrapping_add(5), v: x.v }),
+            FallbackError::FallbackFailed(x) => FallbackError::FallbackFailed(IErr { kind: x.kind.wrapping_add(5), v: x.v }),
+        }
+    };
+    if let (Via::Short, None) = (via_of(kv.get("uvia")), mask) {
+        return Some(match name.as_str() {
+            "value_fn" => UpLayer::value_fn(value_fn),
+            "from_error" => UpLayer::from_error(from_error),
+            "from_request_error" => UpLayer::from_request_error(from_request_error),
+            "exception" => UpLayer::exception(exception),
+            _ => UpLayer::value(value),
+        });
+    }
+    let b = match via_of(kv.get("uvia")) {
+        Via::Default => B::default(),
+        _ => UpLayer::builder(),
+    }
+    .name("verif-upper");
+    let b = match name.as_str() {
+        "value_fn" => b.value_fn(value_fn),
+        "from_error" => b.from_error(from_error),
+        "from_request_error" => b.from_request_error(from_request_error),
+        "exception" => b.exception(exception),
+        _ => b.value(value),
+    };
+    let b = match mask {
+        Some(mask) => b.handle(move |e: &MidErr| {
+            let (k, v) = e.kv();
+            let r = k < 64 && (mask >> k) & 1 == 1;
+            log(format!("upredicate {} {} {}", k, v, r as u8));
+            r
+        }),
+        None => b,
+    };
+    Some(b.build())
+}
+
+/// The transformation of a hand-built `FallbackStrategy::Exception` (for `probe strategy`). The function type of that
+/// variant is public API but whether it takes the error by value or by reference is a detail a refactor may change
+/// without changing any behaviour: the harness builds against either.
+trait ProbeExc {
+    fn make() -> Self;
+    fn apply(&self, e: IErr) -> IErr;
+}
+impl ProbeExc for Arc<dyn Fn(IErr) -> IErr + Send + Sync> {
+    fn make() -> Self {
+        Arc::new(|e: IErr| IErr { kind: e.kind.wrapping_add(10), v: e.v })
+    }
+    fn apply(&self, e: IErr) -> IErr {
+        self(e)
+    }
+}
+impl ProbeExc for Arc<dyn Fn(&IErr) -> IErr + Send + Sync> {
+    fn make() -> Self {
+        Arc::new(|e: &IErr| IErr { kind: e.kind.wrapping_add(10), v: e.v })
+    }
+    fn apply(&self, e: IErr) -> IErr {
+        self(&e)
+    }
+}
+
+enum Svc {
+    One(Low),
+    Two(Up),
+}
 
 pub struct Adapter {
-    /// the layer is kept (not a temporary of the builder statement) so that without `manual dropsvc`
+    /// the layers are kept (not temporaries of the builder statement) so that without `manual dropsvc`
     /// every kind of handle stays alive for the whole case, and with it every kind is dropped
-    layer: Option<FallbackLayer<Req, Resp, IErr>>,
-    svc: Option<Fallback<Inner, Req, Resp, IErr>>,
+    layer: Option<LowLayer>,
+    upper: Option<UpLayer>,
+    /// the scripted inner service every service is built around (a clone each: they share the readiness script)
+    inner: Option<Inner>,
+    /// the services built so far from the one layer value (`svc=<k>`)
+    svcs: BTreeMap<u64, Svc>,
+    gone: bool,
+    kv: Kv,
 }
 
 impl Adapter {
     pub fn new(kv: &Kv) -> Adapter {
-        let val = kv.u64("val", 0);
-        type B = tower_resilience_fallback::FallbackConfigBuilder<Req, Resp, IErr>;
-        let strategy_name = kv.str("strategy", "value");
-        let bready = kv.get("bready").map(|x| x.to_string());
-        let strategy = move |b: B| -> B {
-            match strategy_name.as_str() {
-                "value_fn" => {
-                    let n = Arc::new(AtomicU64::new(0));
-                    b.value_fn(move || {
-                        let i = n.fetch_add(1, Ordering::SeqCst);
-                        log(format!("strategy value_fn {}", i));
-                        Resp { v: val + i, c: 0, tag: 1 }
-                    })
-                }
-                "from_error" => b.from_error(|e: &IErr| {
-                    log(format!("strategy from_error {} {}", e.kind, e.v));
-                    Resp { v: e.v, c: 0, tag: e.kind as u64 }
-                }),
-                "from_request_error" => b.from_request_error(|rq: &Req, e: &IErr| {
-                    log(format!("strategy from_request_error {} {} {} {}", rq.c, rq.tag, e.kind, e.v));
-                    Resp { v: e.v, c: rq.c, tag: rq.tag * 100 + e.kind as u64 }
-                }),
-                "service" => match &bready {
-                    // without a readiness script: the backup call is made in the synchronous part of the closure
-                    // (`|req| client.call(req)`), so WHEN the layer invokes the closure is visible in the log
-                    None => {
-                        let backup = Inner::labelled("b");
-                        b.service(move |rq: Req| {
-                            let mut s = backup.clone();
-                            s.call(rq)
-                        })
-                    }
-                    // with one: `|req| async move { client.ready().await?.call(req).await }`
-                    Some(script) => {
-                        let mut backup = Inner::strict(script);
-                        backup.label = "b";
-                        b.service(move |rq: Req| {
-                            let mut s = backup.clone();
-                            async move {
-                                std::future::poll_fn(|cx| s.poll_ready(cx)).await?;
-                                s.call(rq).await
-                            }
-                        })
-                    }
-                },
-                "exception" => b.exception(|e: IErr| {
-                    log(format!("strategy exception {} {}", e.kind, e.v));
-                    IErr { kind: e.kind.wrapping_add(10), v: e.v }
-                }),
-                _ => b.value(Resp { v: val, c: 0, tag: 0 }),
-            }
-        };
-        let handle_mask = kv.opt_u64("handle");
-        let handle = move |b: B| -> B {
-            match handle_mask {
-                Some(mask) => b.handle(move |e: &IErr| {
-                    let r = e.kind < 64 && (mask >> e.kind) & 1 == 1;
-                    log(format!("predicate {} {} {}", e.kind, e.v, r as u8));
-                    r
-                }),
-                None => b,
-            }
-        };
-        // `order=1`: the handle predicate is configured BEFORE the strategy (builder calls commute)
-        let b = FallbackLayer::<Req, Resp, IErr>::builder().name("verif");
-        let b = if kv.u64("order", 0) == 1 { strategy(handle(b)) } else { handle(strategy(b)) };
-        let layer = b.build();
+        let layer = build_lower(kv);
+        let upper = build_upper(kv);
         let inner = match kv.get("ready") {
             Some(script) => Inner::strict(script),
             None => Inner::new(),
         };
-        let svc = layer.layer(inner);
-        Adapter { layer: Some(layer), svc: Some(svc) }
+        let mut a = Adapter { layer: Some(layer), upper, inner: Some(inner), svcs: BTreeMap::new(), gone: false, kv: kv.clone() };
+        a.service(0);
+        a
+    }
+    /// service k, built on first use from the layer value (even k) or from a clone of it taken now (odd k)
+    fn service(&mut self, k: u64) -> Option<&mut Svc> {
+        if self.gone {
+            return None;
+        }
+        if !self.svcs.contains_key(&k) {
+            let inner = self.inner.as_ref()?.clone();
+            let layer = self.layer.as_ref()?;
+            let low = if k % 2 == 1 { layer.clone().layer(inner) } else { layer.layer(inner) };
+            let svc = match self.upper.as_ref() {
+                None => Svc::One(low),
+                Some(u) => Svc::Two(if k % 2 == 1 { u.clone().layer(low) } else { u.layer(low) }),
+            };
+            self.svcs.insert(k, svc);
+        }
+        self.svcs.get_mut(&k)
     }
 }
 
-type Out = Result<Resp, FallbackError<IErr>>;
-
-/// full payload of the result (compared line by line with the model's `resp` event)
-fn detail(r: &Out) -> String {
-    match r {
-        Ok(x) => format!("ok {} {} {}", x.v, x.c, x.tag),
-        Err(FallbackError::Inner(e)) => format!("inner {} {}", e.kind, e.v),
-        Err(FallbackError::FallbackFailed(e)) => format!("fallback_failed {} {}", e.kind, e.v),
+fn detail_err<E: Pay>(e: &FallbackError<E>) -> String {
+    match e {
+        FallbackError::Inner(e) => format!("inner {} {}", e.kv().0, e.kv().1),
+        FallbackError::FallbackFailed(e) => format!("fallback_failed {} {}", e.kv().0, e.kv().1),
     }
 }
-
-pub fn render(r: Out) -> String {
-    match r {
-        Ok(x) => format!("ok:{}", x.v),
-        Err(FallbackError::Inner(e)) => format!("err:inner{}:{}", e.kind, e.v),
+fn render_err<E: Pay>(e: &FallbackError<E>) -> String {
+    match e {
+        FallbackError::Inner(e) => format!("err:inner{}:{}", e.kv().0, e.kv().1),
         // inner and backup both failed; carries the backup's error (common variant `all_failed`)
-        Err(FallbackError::FallbackFailed(e)) => format!("err:all_failed:inner{}:{}", e.kind, e.v),
+        FallbackError::FallbackFailed(e) => format!("err:all_failed:inner{}:{}", e.kv().0, e.kv().1),
     }
+}
+
+/// The caller's post-processing of an error result (`post=`), then the two renderings of what it finally holds:
+/// the full payload (`resp` line) and the common result grammar.
+fn post_err<E: Pay>(c: usize, mut e: FallbackError<E>, steps: &[u8]) -> (String, String) {
+    for (i, st) in steps.iter().enumerate() {
+        match st {
+            b'c' => {
+                // the clone replaces the original
+                let d = e.clone();
+                e = d;
+            }
+            b'v' => {
+                let (a, b) = (e.is_inner(), e.is_fallback_failed());
+                let r = e.inner().kv();
+                // `into_inner` consumes the error: it is put together again as the variant it was (by pattern)
+                let failed = matches!(e, FallbackError::FallbackFailed(_));
+                let p = e.into_inner();
+                let q = p.kv();
+                log(format!("view {} {} {} {} {} {} {}", c, a as u8, b as u8, r.0, r.1, q.0, q.1));
+                e = if failed { FallbackError::FallbackFailed(p) } else { FallbackError::Inner(p) };
+            }
+            b'm' => {
+                // `map_err(|e| e.map(AppErr::from))`: the payload type changes, the rest of the steps run on the new type
+                return post_err::<AppErr>(c, e.map(app_err::<E>), &steps[i + 1..]);
+            }
+            _ => {}
+        }
+    }
+    (detail_err(&e), render_err(&e))
+}
+
+/// one request on one service handle, the way a caller makes it
+fn make_call<S, E>(handle: &mut S, reuse: bool, c: usize, kv: &Kv) -> Option<CallFut>
+where
+    S: Service<Req, Response = Resp, Error = FallbackError<E>> + Clone,
+    S::Future: 'static,
+    E: Pay,
+{
+    let post: Vec<u8> = kv.str("post", "").into_bytes();
+    let req = Req::new(c, kv);
+    // by default the call is made on a clone that is dropped as soon as the response future exists;
+    // `reuse=1`: on the long-lived handle itself
+    let mut tmp = if reuse { None } else { Some(handle.clone()) };
+    let svc: &mut S = match tmp.as_mut() {
+        Some(t) => t,
+        None => handle,
+    };
+    match poll_ready_once(svc) {
+        std::task::Poll::Ready(Ok(())) => {}
+        std::task::Poll::Pending => {
+            log(format!("result {} notready", c));
+            return None;
+        }
+        std::task::Poll::Ready(Err(e)) => {
+            // what `poll_ready` returned, through the same post-processing and rendering as the result of a call
+            let (d, r) = post_err(c, e, &post);
+            log(format!("resp {} {}", c, d));
+            log(format!("result {} {}", c, r));
+            return None;
+        }
+    }
+    let fut = svc.call(req);
+    drop(tmp);
+    Some(Box::pin(async move {
+        match fut.await {
+            Ok(x) => {
+                log(format!("resp {} ok {} {} {}", c, x.v, x.c, x.tag));
+                format!("ok:{}", x.v)
+            }
+            Err(e) => {
+                let (d, r) = post_err(c, e, &post);
+                log(format!("resp {} {}", c, d));
+                r
+            }
+        }
+    }))
 }
 
 impl Mw for Adapter {
     fn arrive(&mut self, c: usize, kv: &Kv) -> Option<CallFut> {
-        let Some(svc) = self.svc.as_ref() else {
-            log("noop".into());
-            return None;
-        };
-        // the call is made on a clone that is dropped as soon as the response future exists
-        let mut svc = svc.clone();
-        let req = Req::new(c, kv);
-        match poll_ready_once(&mut svc) {
-            std::task::Poll::Ready(Ok(())) => {}
-            std::task::Poll::Pending => {
-                log(format!("result {} notready", c));
-                return None;
+        let reuse = kv.u64("reuse", 0) == 1;
+        match self.service(kv.u64("svc", 0)) {
+            None => {
+                log("noop".into());
+                None
             }
-            std::task::Poll::Ready(Err(e)) => {
-                // what `poll_ready` returned, through the same rendering as the result of a call
-                let r: Out = Err(e);
-                log(format!("resp {} {}", c, detail(&r)));
-                log(format!("result {} {}", c, render(r)));
-                return None;
-            }
+            Some(Svc::One(s)) => make_call(s, reuse, c, kv),
+            Some(Svc::Two(s)) => make_call(s, reuse, c, kv),
         }
-        let fut = svc.call(req);
-        drop(svc);
-        Some(Box::pin(async move {
-            let r = fut.await;
-            log(format!("resp {} {}", c, detail(&r)));
-            render(r)
-        }))
     }
     fn manual(&mut self, what: &str, _kv: &Kv) {
         if what == "dropsvc" {
             log_raw(format!("#dropsvc {}", now_ms()));
-            self.svc = None;
+            self.svcs.clear();
             self.layer = None;
+            self.upper = None;
+            self.inner = None;
+            self.gone = true;
         }
+    }
+    fn probe(&mut self, what: &str, kv: &Kv) {
+        if what != "strategy" {
+            return;
+        }
+        // a strategy value built by hand (the variants and the function types are public), cloned; the CLONE is used
+        let val = self.kv.u64("val", 0);
+        let name = self.kv.str("strategy", "value");
+        let original: FallbackStrategy<Req, Resp, IErr> = match name.as_str() {
+            "value_fn" => FallbackStrategy::ValueFn(Arc::new(move || Resp { v: val, c: 0, tag: 1 })),
+            "from_error" => FallbackStrategy::FromError(Arc::new(|e: &IErr| Resp { v: e.v, c: 0, tag: e.kind as u64 })),
+            "from_request_error" => FallbackStrategy::FromRequestError(Arc::new(|rq: &Req, e: &IErr| Resp {
+                v: e.v,
+                c: rq.c,
+                tag: rq.tag * 100 + e.kind as u64,
+            })),
+            "service" => FallbackStrategy::Service(Arc::new(|rq: Req| {
+                Box::pin(std::future::ready(Ok::<Resp, IErr>(Resp { v: rq.tag, c: rq.c, tag: rq.tag })))
+            })),
+            "exception" => FallbackStrategy::Exception(ProbeExc::make()),
+            _ => FallbackStrategy::Value(Resp { v: val, c: 0, tag: 0 }),
+        };
+        let copy = original.clone();
+        drop(original);
+        let rq = Req::new(kv.u64("c", 0) as usize, kv);
+        let e = IErr { kind: kv.u64("kind", 0) as u8, v: kv.u64("v", 0) };
+        let ok = |r: Resp| format!("ok {} {} {}", r.v, r.c, r.tag);
+        let (variant, out) = match copy {
+            FallbackStrategy::Value(v) => ("value", ok(v)),
+            FallbackStrategy::ValueFn(f) => ("value_fn", ok(f())),
+            FallbackStrategy::FromError(f) => ("from_error", ok(f(&e))),
+            FallbackStrategy::FromRequestError(f) => ("from_request_error", ok(f(&rq, &e))),
+            FallbackStrategy::Service(s) => {
+                let mut fut = s(rq);
+                match noop_cx_poll(&mut fut) {
+                    std::task::Poll::Ready(Ok(r)) => ("service", ok(r)),
+                    std::task::Poll::Ready(Err(e)) => ("service", format!("inner {} {}", e.kind, e.v)),
+                    std::task::Poll::Pending => ("service", "pending".to_string()),
+                }
+            }
+            FallbackStrategy::Exception(t) => {
+                let x = t.apply(e);
+                ("exception", format!("inner {} {}", x.kind, x.v))
+            }
+        };
+        log(format!("probe strategy {} {}", variant, out));
     }
 }
